@@ -328,6 +328,8 @@ ORACLES = {
     'C16': [_oracle('flatten, parent selected, no condition', 40, 400, kind='flatten', with_cond=False, select_parent=True),
             _oracle('flatten, parent selected, condition', 40, 400, kind='flatten', with_cond=True, select_parent=True),
             _oracle('flatten only, condition', 40, 400, kind='flatten', with_cond=True, select_parent=False, falsy=True),
+            _oracle('flatten where some parents hold one non-iterable value (an int, a string) instead of a collection', 60, 600,
+                    kind='flatten', with_cond=False, select_parent=True, singletons=True, n=4),
             _oracle('conditions on the flattened element itself (and / or / not), result cache off', 200, 3000, kind='flatten_elem',
                     caching=False),
             _oracle('conditions on the flattened element itself, element only selected, result cache off', 100, 1500,
